@@ -3,7 +3,10 @@
      lower triangle:                 ndu[j][r] = right[r+1] + left[j-r]
                                                = U_{span+r+1} - U_{span+1-(j-r)}       (r < j <= p)
    The upper triangle is DersRow0.ndu_upper + BasisR.bf_is_cox_de_boor_list; the lower triangle (knot differences)
-   is a second invariant over the same double fold. *)
+   is a second invariant over the same double fold.
+   Second reading (ndu_table_spec_pieces): for EVERY real u (no condition on u or on the knots) the upper triangle
+   holds the polynomial pieces Nk of the span (DerivAnalytic.v) - A2.2 and the Cox-de Boor recursion of the pieces are
+   the same formal computation (bf_is_piece). *)
 From Coq Require Import List Reals Lra Lia Arith Bool.
 From NV Require Import Scalar.Ops Model.Common Model.Basis Proofs.Boehm Proofs.BfN Proofs.BasisR Proofs.DersRow0
                        Proofs.DerivAnalytic.
